@@ -59,9 +59,14 @@ func main() {
 	}
 	hx.Cases(func(c map[string]any) map[string]any {
 		h := &rec{calls: map[string][][2]string{}}
-		ctx, cancel := context.WithTimeout(context.Background(), 60*time.Second)
+		ctx, cancel := context.WithTimeout(context.Background(), 300*time.Second)
 		defer cancel()
-		r := &ptrace.Runner{Args: []string{hx.Target(), "pathops", c["script"].(string), c["out"].(string)}, Env: []string{},
+		// "probe": the escaped-script variant of pathops (names of the forest may contain any byte)
+		args := []string{hx.Target(), "pathops", c["script"].(string), c["out"].(string)}
+		if p, ok := c["probe"].(string); ok && p != "" {
+			args = []string{p, c["script"].(string), c["out"].(string)}
+		}
+		r := &ptrace.Runner{Args: args, Env: []string{},
 			WorkDir: c["wd"].(string), Limit: runner.Limit{TimeLimit: 30 * time.Second, MemoryLimit: runner.Size(1 << 30)},
 			Seccomp: filter, Handler: h}
 		res := r.Run(ctx)
